@@ -5,7 +5,7 @@ id=$1
 src=/tmp/mut/${id}_out; [ -f $src/patch.diff ] || src=$PWD/seeded/$id
 wt=/tmp/mut/$id
 [ -d $wt ] || git -C /repo worktree add -q $wt HEAD
-git -C $wt checkout -q -- . && git -C $wt apply $src/patch.diff || { echo "$id: patch does not apply"; exit 2; }
+git -C $wt checkout -q -- . && git -C $wt checkout -q --detach $(git -C /repo rev-parse HEAD) && git -C $wt apply $src/patch.diff || { echo "$id: patch does not apply"; exit 2; }
 tmp=$(mktemp -d)
 GENLM_REPO=$wt VERIF_GEN_OUT=$tmp /venv/bin/python -c "from harness import translate; translate.run()" >/dev/null 2>&1
 if diff -rq $tmp lean/GenlmModel/Generated >/dev/null 2>&1; then
